@@ -188,14 +188,14 @@ def run(tier: str) -> int:
     k, L = BOUNDS[tier]
     hist = history_part(tier)
     return gc.run_model_check(
-        C05(), specs(tier) + rep_specs(tier) + trivia_specs(tier) + two_level_specs(tier) + [sp for sp in families.metachar_specs("zero", tier)], tier, "model_checking",
+        C05(), specs(tier) + rep_specs(tier) + trivia_specs(tier) + two_level_specs(tier) + [sp for sp in families.metachar_specs("zero", tier)] + families.recursive_specs("zero", tier, stack=True), tier, "model_checking",
         bounds=[{"inner_size": k, "L": L, "alphabet": "ab", "pre": list(PRES), "wrappers": list(WRAPS), "failer": [False, True]}],
         rule="start rules PRE ~ W[INNER ~ FAILER] ~ PEEK_ALL ~ EOI: PRE in {nothing, PUSH_LITERAL(\"a\"), PUSH(\"a\"|\"b\") ~ PUSH(\"a\"|\"b\")}, INNER every expression with <= k nodes over "
              "{\"a\", PUSH(\"a\"|\"b\"), PUSH_LITERAL(\"b\"), POP, PEEK, DROP, PEEK_ALL, POP_ALL, PEEK[..1], PEEK[-1..], PEEK[0..], PEEK[1..2], PEEK[..0]} with ? * & ! ( ) ~ |, W in {none, (. | \"\"), ?, *, &, !}, "
              "FAILER in {nothing, a literal that cannot match}; x every string over {a,b} up to length L; four modes against the reference model (persistent stack: every abandoned attempt and every predicate is undone by construction). "
              "Plus the stack-repetition family: after 2-3 pushes of possibly empty entries (PUSH(\"a\"?), PUSH_LITERAL(\"\"), PUSH(\"a\"|\"b\")), every repetition ? * + {2} {1,} {,2} {1,2} of an operand that can succeed without consuming input "
              "(DROP, (DROP ~ \"a\"?), (\"a\"? ~ DROP), (&DROP ~ POP), (&DROP ~ PEEK ~ DROP), (\"b\" ~ DROP | DROP)), followed by the probe, alone and inside an abandoned alternative. "
-             "Plus stack-two-levels: PUSH(\"a\") ~ PUSH(\"b\") ~ W1[op1 ~ W2[op2 ~ F2] ~ F1] ~ probe for every pair of six stack operations, every pair of wrappers and every combination of the two levels failing or committing, inputs over {a,b} up to length 5; "
+             + families.RECURSIVE_RULE_TEXT[2:] + " (stack operations as op, POP_ALL ~ EOI as the probe). " + "Plus stack-two-levels: PUSH(\"a\") ~ PUSH(\"b\") ~ W1[op1 ~ W2[op2 ~ F2] ~ F1] ~ probe for every pair of six stack operations, every pair of wrappers and every combination of the two levels failing or committing, inputs over {a,b} up to length 5; "
              "plus literals of regular-expression metacharacters and non-BMP characters through PUSH_LITERAL and PUSH. Plus stack-with-trivia: \"a\" ~ W[INNER ~ FAILER] ~ \"a\" ~ PEEK_ALL ~ EOI with INNER <= 2 nodes, under WHITESPACE = _{ \" \" } and COMMENT = _{ PUSH(\"#\") ~ \"!\" ~ DROP } (an implicit rule that pushes before it can fail). "
              "UNSPEC cases (PEEK/POP on an empty stack, out-of-range slice) are judged only by 'no exception other than PestParsingError'. Non-trivial: the reference run backtracked or returned pairs. "
              "The history-level half of the quantifier is C09's BFS over ParserState.checkpoint/ok/restore x push/drop.",
